@@ -31,6 +31,14 @@ Theorem Main2_order_errors : forall p p', admissible_perm2 p p' -> order_ok2 p =
 Proof. exact final2_errors. Qed.
 Print Assumptions Main2_order_errors.
 
+(** both directions: under the side condition on both orders, the two builds fail together or give
+    solution-equivalent systems with the same initial conditions *)
+Theorem Main2_order_invariant_both_ways : forall p p', admissible_perm2 p p' -> order_ok2 p = true -> order_ok2 p' = true ->
+  (forall E, build2 p = Ok E -> exists E', build2 p' = Ok E' /\ sys_equiv E E' /\ fs_ic E' = fs_ic E) /\
+  (forall E', build2 p' = Ok E' -> exists E, build2 p = Ok E /\ sys_equiv E E' /\ fs_ic E' = fs_ic E).
+Proof. exact final2_iff. Qed.
+Print Assumptions Main2_order_invariant_both_ways.
+
 (** the computable relation the harness evaluates is contained in the theorem's relation *)
 Theorem is_admissible2_is_sound : forall p p', is_admissible2 p p' = true -> admissible_perm2 p p'.
 Proof. exact is_admissible2_sound. Qed.
